@@ -613,7 +613,8 @@ impl Formatter {
           let mut out = String::new();
           for c in n.to_string().chars() {
             if matches!(c, '\\' | '*' | '_' | '`' | '~' | '|') { out.push('\\'); }
-            out.push(c);
+            // a line break or carriage return inside a text run was written as an escape
+            match c { '\n' => out.push_str("\\n"), '\r' => out.push_str("\\r"), _ => out.push(c) }
           }
           out
         }
